@@ -583,6 +583,9 @@ pub enum InAct {
     Wakeup,
     /// insert an idle callback (must run in this iteration, before run() leaves)
     Idle,
+    /// insert an idle callback that inserts another idle when it runs: the inner one belongs to the NEXT iteration (and
+    /// never runs if the loop leaves first)
+    IdleChain,
 }
 
 #[derive(Serialize, Deserialize, Debug, Clone, Hash, PartialEq, Eq)]
@@ -594,12 +597,15 @@ pub struct InCase {
     pub block_on: bool,
     /// one entry per loop iteration: what the (re-armed) timer callback of that iteration does, in order
     pub rounds: Vec<Vec<InAct>>,
+    /// the per-iteration closure of run() / block_on() inserts an idle each time it runs (belongs to the next iteration)
+    #[serde(default)]
+    pub closure_idle: bool,
 }
 
-fn in_strategy() -> impl Strategy<Value = InCase> {
-    let act = prop_oneof![3 => Just(InAct::Stop), 3 => Just(InAct::Complete), 4 => Just(InAct::Wake), 1 => Just(InAct::Wakeup), 2 => Just(InAct::Idle)];
-    (proptest::collection::vec(any::<bool>(), 0..=2), any::<bool>(), proptest::collection::vec(proptest::collection::vec(act, 0..=4), 1..=5))
-        .prop_map(|(prelude, block_on, rounds)| InCase { prelude, block_on, rounds })
+pub fn in_strategy() -> impl Strategy<Value = InCase> {
+    let act = prop_oneof![3 => Just(InAct::Stop), 3 => Just(InAct::Complete), 4 => Just(InAct::Wake), 1 => Just(InAct::Wakeup), 2 => Just(InAct::Idle), 2 => Just(InAct::IdleChain)];
+    (proptest::collection::vec(any::<bool>(), 0..=2), any::<bool>(), proptest::collection::vec(proptest::collection::vec(act, 0..=4), 1..=5), prop::bool::weighted(0.3))
+        .prop_map(|(prelude, block_on, rounds, closure_idle)| InCase { prelude, block_on, rounds, closure_idle })
 }
 
 struct InFut {
@@ -632,7 +638,8 @@ pub fn run_inloop(case: &InCase) -> CaseOutcome {
     let mut m_polls_min = 1u32; // initial poll
     let mut want: Option<Option<u32>> = None; // Some(result) once decided
     let mut rounds_run = 0usize;
-    let mut idles_want = 0u32;
+    // idles queued for the next dispatch_idles (plain ones / ones that insert another idle), and how many ran in all
+    let (mut q_plain, mut q_chain, mut idles_expected) = (0u32, 0u32, 0u32);
     for r in &rounds {
         rounds_run += 1;
         let mut stopped = false;
@@ -642,8 +649,17 @@ pub fn run_inloop(case: &InCase) -> CaseOutcome {
                 InAct::Complete => m_complete = true,
                 InAct::Wake => m_ready = true,
                 InAct::Wakeup => {}
-                InAct::Idle => idles_want += 1,
+                InAct::Idle => q_plain += 1,
+                InAct::IdleChain => q_chain += 1,
             }
+        }
+        // the idles of this iteration run now; what they insert waits for the next iteration, as does what the
+        // per-iteration closure inserts right afterwards
+        idles_expected += q_plain + q_chain;
+        q_plain = q_chain;
+        q_chain = 0;
+        if case.closure_idle {
+            q_plain += 1;
         }
         if stopped {
             want = Some(None);
@@ -703,9 +719,10 @@ pub fn run_inloop(case: &InCase) -> CaseOutcome {
     {
         let rounds = rounds.clone();
         let (complete, waker, cb_rounds, idles_ran, signal) = (complete.clone(), waker.clone(), cb_rounds.clone(), idles_ran.clone(), signal.clone());
-        let h2 = handle.clone();
+        let weak = handle.downgrade();
         handle
             .insert_source(calloop::timer::Timer::immediate(), move |_, _, _| {
+                let Some(h2) = weak.upgrade() else { return calloop::timer::TimeoutAction::Drop };
                 let k = cb_rounds.fetch_add(1, Ordering::SeqCst) as usize;
                 if let Some(r) = rounds.get(k) {
                     for a in r {
@@ -725,6 +742,19 @@ pub fn run_inloop(case: &InCase) -> CaseOutcome {
                                     n.fetch_add(1, Ordering::SeqCst);
                                 });
                             }
+                            InAct::IdleChain => {
+                                let n = idles_ran.clone();
+                                let w2 = h2.downgrade();
+                                let _ = h2.insert_idle(move |_| {
+                                    n.fetch_add(1, Ordering::SeqCst);
+                                    if let Some(h3) = w2.upgrade() {
+                                        let n2 = n.clone();
+                                        let _ = h3.insert_idle(move |_| {
+                                            n2.fetch_add(1, Ordering::SeqCst);
+                                        });
+                                    }
+                                });
+                            }
                         }
                     }
                     calloop::timer::TimeoutAction::ToDuration(Duration::ZERO)
@@ -735,22 +765,31 @@ pub fn run_inloop(case: &InCase) -> CaseOutcome {
             .expect("insert timer");
     }
     let cr = closure_runs.clone();
+    let closure_idle = case.closure_idle;
+    let (weak_c, idles_c) = (handle.downgrade(), idles_ran.clone());
+    let mut closure = move || {
+        cr.fetch_add(1, Ordering::SeqCst);
+        if closure_idle {
+            if let Some(h) = weak_c.upgrade() {
+                let n = idles_c.clone();
+                let _ = h.insert_idle(move |_| {
+                    n.fetch_add(1, Ordering::SeqCst);
+                });
+            }
+        }
+    };
     let got: Result<Option<u32>, String> = if case.block_on {
-        el.block_on(InFut { complete: complete.clone(), waker: waker.clone(), polls: polls.clone() }, &mut (), move |_| {
-            cr.fetch_add(1, Ordering::SeqCst);
-        })
+        el.block_on(InFut { complete: complete.clone(), waker: waker.clone(), polls: polls.clone() }, &mut (), move |_| closure())
         .map_err(|e| format!("{e}"))
     } else {
-        el.run(None, &mut (), move |_| {
-            cr.fetch_add(1, Ordering::SeqCst);
-        })
+        el.run(None, &mut (), move |_| closure())
         .map(|()| None)
         .map_err(|e| format!("{e}"))
     };
     let mut info = CaseInfo::default();
     info.fingerprint = fingerprint(case);
     let stop_in_case = case.rounds.iter().any(|r| r.contains(&InAct::Stop));
-    let same_round = case.rounds.iter().any(|r| r.contains(&InAct::Stop) && (r.contains(&InAct::Wake) || r.contains(&InAct::Idle)));
+    let same_round = case.rounds.iter().any(|r| r.contains(&InAct::Stop) && (r.contains(&InAct::Wake) || r.contains(&InAct::Idle) || r.contains(&InAct::IdleChain)));
     info.nontrivial = stop_in_case && same_round;
     info.classes.push(if case.block_on { "inloop_block_on" } else { "inloop_run" });
     if same_round {
@@ -791,12 +830,17 @@ pub fn run_inloop(case: &InCase) -> CaseOutcome {
                 .with_sig("C11.stop/inloop"),
             );
         }
-        // idles inserted in iterations that ran must all have run before the loop left
-        let idles_expected: u32 = rounds.iter().take(rounds_run).map(|r| r.iter().filter(|a| **a == InAct::Idle).count() as u32).sum();
-        let _ = idles_want;
+        // idles inserted by source callbacks run in their iteration; idles inserted by idle callbacks or by the
+        // per-iteration closure belong to the next iteration and do not run if the loop leaves first
         let ir = idles_ran.load(Ordering::SeqCst);
         if ir != idles_expected {
-            return Some(Violation::new("C11.stop", format!("{ir} idle callbacks ran, {idles_expected} were inserted in the iterations the loop completed")).with_sig("C11.stop/inloop-idles"));
+            return Some(
+                Violation::new(
+                    "C13.phase",
+                    format!("{ir} idle callbacks ran inside the call, the reference model says {idles_expected} (idles of source callbacks run in their own iteration, idles inserted by idles or by the per-iteration closure in the following one - if there is one)"),
+                )
+                .with_sig("C13.phase/inloop-idles"),
+            );
         }
         let c = closure_runs.load(Ordering::SeqCst) as usize;
         // the per-iteration closure runs once per completed iteration (block_on: also after the last dispatch unless it returned Some at its head)
